@@ -8,7 +8,7 @@ import subprocess
 import sys
 
 VERIF = os.path.dirname(os.path.dirname(os.path.abspath(__file__)))
-PROPS = [f"C{n:02d}" for n in range(1, 19) if n != 9]
+PROPS = [p for p in os.environ.get("VERIF_PROPS", "").split(",") if p] or [f"C{n:02d}" for n in range(1, 19) if n != 9]
 
 EXTRA = {
     "C16": "EXTRA: the property concerns the `sync` feature. Your demonstrations will be run with `cargo test --offline --features sync --test <demo>`; the existing suite must pass with and without `--features sync`.\n",
